@@ -250,6 +250,22 @@ def cleanup_dir(ctx, d):
     shutil.rmtree(d, ignore_errors=True)
 
 
+def outcome_facts(tables):
+    """('outcome', step label, returncode or None) for every attached SUCCEEDED/FAILED step: what
+    `stepup browse` shows about the last run of the step is part of the stored result."""
+    nodes = {n["i"]: n for n in tables["node"]}
+    rows = {o["node"]: o for o in tables.get("step_outcome", [])}
+    facts = []
+    for s in tables["step"]:
+        n = nodes[s["node"]]
+        if n["detached"] or s["state"] not in (23, 24):
+            continue
+        o = rows.get(s["node"])
+        facts.append(("outcome", n["label"], None if o is None else o["returncode"],
+                      None if o is None else bool(o["stderr"])))
+    return sorted(facts, key=repr)
+
+
 def project_graph(tables, strict=False):
     """Facts about the active workflow, as a sorted list of tuples built from the raw tables.
 
